@@ -56,6 +56,10 @@ def check(prop, tier):
     for x in tlc.tagged(r, "S"):
         emitted[json.dumps(x["case"], sort_keys=True)] = x
     cases = list(emitted.values())
+    for x in cases:
+        for k in ("attrs", "ctor"):
+            if isinstance(x["exp"].get(k), list):      # ToJson prints a function with an empty domain as []
+                x["exp"][k] = {}
     if len(cases) < 100:
         raise MachineryError("Inject.tla emitted only %d cases" % len(cases))
     per = 1500
